@@ -63,6 +63,7 @@ Inductive expr :=
 | ERsubst (pid : N) (new val : expr)        (* subst(/re/, new, val) *)
 | ETimestamp
 | EGetfilename
+| EIncr (dec : bool) (m : N) (ks : exprs)   (* m[ks]++ / m[ks]-- used as a value: the new value *)
 with exprs :=
 | XNil
 | XCons (e : expr) (r : exprs).
